@@ -114,6 +114,10 @@ class BarrelList(list):
             if rel_idx < len_list:
                 break
             rel_idx -= len_list
+        else:
+            # past the end: stay relative to the (last) list's own end, so
+            # that insert() appends and item access raises IndexError
+            rel_idx += len_list
         if rel_idx < 0:
             return None, None
         return list_idx, rel_idx
